@@ -321,6 +321,12 @@ def boundary_cases():
                 add(mn, mx, [P] * k + [("A", 0, mode, j) for j in (k - 1,)] + [N0] * (2 * k + 2))
                 add(mn, mx, [P] * 6 + [("A", 0, mode, k), P, N0, N0, N0, N0])
                 add(mn, mx, [S0, ("B", k), N0, N0, ("B", k), ("S", 1, mode)] + [N0, N1] * (2 * k + 2))
+        # two readers tied on the oldest retained item, two or more items behind (a moved-out element would be seen by
+        # the second one): a subscriber and its copy, two subscribers created together, a late subscriber at a position
+        for mn in (1, 2):
+            add(mn, 0, [S0, P, P, P, ("Y", 1, 0), N0, N0, N1, N1, N0, N0, N1, N1])
+            add(mn, 0, [S0, ("S", 1, mode), ("B", 3), N0, N0, N1, N1, N1, N1, N0, N0])
+            add(mn, 0, [S0, P, P, P, ("A", 1, mode, 3), N1, N1, N0, N0, N0, N0, N1, N1])
         # copy: independent continuation, slot reuse through the free list
         add(1, 0, [S0, P, P, N0, N0, ("Y", 1, 0), N0, N0, N1, N1, N1, N1, P, N0, N1, N0, N1])
         add(1, 0, [S0, P, N0, ("Y", 1, 0), N0, N1, N1])
